@@ -51,6 +51,7 @@ type c06Data struct {
 	name   map[int64]string
 	subOf  map[int64]int64 // item id -> sub id (0: null)
 	c      map[int64]int64 // sub id -> value
+	touched int            // executions of Mutation.touch
 }
 
 // c06Assign: the services that implement each movable field.
@@ -252,6 +253,12 @@ func c06Service(service string, as c06Assign, d *c06Data) (*graphql.Schema, *Int
 			return out, nil
 		})
 	}
+	if as.has("Mutation.touch", service) {
+		b.field("Mutation", "touch", item, c06R("OBJECT", "Item"), func(src interface{}) (interface{}, error) {
+			d.touched++
+			return &c06Item{Id: 1}, nil
+		})
+	}
 	for _, n := range []string{"int64", "string"} {
 		b.intro[n] = &introspectionType{Name: n, Kind: "SCALAR", Fields: []introspectionField{}, InputFields: []introspectionInputField{}, PossibleTypes: []*introspectionTypeRef{}, EnumValues: []introspectionEnumValue{}, Interfaces: []*introspectionTypeRef{}}
 	}
@@ -370,10 +377,14 @@ func (w *c06World) reference(text string) (interface{}, bool) {
 	if err != nil {
 		return nil, false
 	}
-	if err := graphql.PrepareQuery(context.Background(), w.combined.Query, q.SelectionSet); err != nil {
+	var root graphql.Type = w.combined.Query
+	if q.Kind == "mutation" {
+		root = w.combined.Mutation
+	}
+	if err := graphql.PrepareQuery(context.Background(), root, q.SelectionSet); err != nil {
 		return nil, false
 	}
-	v, err := graphql.NewExecutor(&c15Sched{}).Execute(context.Background(), w.combined.Query, nil, q)
+	v, err := graphql.NewExecutor(&c15Sched{}).Execute(context.Background(), root, nil, q)
 	if err != nil {
 		return nil, false
 	}
@@ -475,6 +486,10 @@ func (g *c06Gen) query(roots []string, slots, subSlots int) string {
 	switch root {
 	case "items", "first":
 		return "{ " + root + " " + g.itemSel(root, slots, subSlots) + " }"
+	case "touch":
+		delete(g.used, "Query.touch")
+		g.used["Mutation.touch"] = true
+		return "mutation { touch " + g.itemSel(root, slots, subSlots) + " }"
 	}
 	// things: fragments per union member
 	out := ""
@@ -497,7 +512,7 @@ func (g *c06Gen) query(roots []string, slots, subSlots int) string {
 	return "{ things {" + out + " } }"
 }
 
-var c06Movable = []string{"Item.a", "Item.b", "Item.name", "Item.sub", "Sub.c", "Other.o", "Query.items", "Query.first", "Query.things"}
+var c06Movable = []string{"Mutation.touch", "Item.a", "Item.b", "Item.name", "Item.sub", "Sub.c", "Other.o", "Query.items", "Query.first", "Query.things"}
 
 // c06Partition: every field the query mentions is implemented by s1, by s2, or
 // (if both is allowed) by both; the others by s1.
@@ -619,6 +634,10 @@ func c06Compare(g *c06Gen, text string, as c06Assign, d *c06Data) {
 	} else {
 		nondet.Assert(true, "same-json-as-combined")
 	}
+	if g.used["Mutation.touch"] {
+		// once for the reference, once through the gateway
+		nondet.Assert(d.touched == 2, "mutation-runs-once")
+	}
 	if w.requests["s1"] > 0 && w.requests["s2"] > 0 {
 		nondet.Cover("two-services")
 	}
@@ -663,6 +682,9 @@ func VerifC06Plain() { c06Check([]string{"items", "first", "things"}, 2, 1, fals
 
 // quick: items / first with 2 entries per Item
 func VerifC06Items() { c06Check([]string{"items", "first"}, 2, 1, false, false) }
+
+// quick: a mutation returning an Item whose fields may live on another service
+func VerifC06Mutation() { c06Check([]string{"touch"}, 2, 1, false, false) }
 
 // quick: the union root with 1 entry on Item
 func VerifC06Things() { c06Check([]string{"things"}, 1, 1, false, false) }
